@@ -139,3 +139,39 @@ def run (st : KState) : List KOp → Except Err KState
     | .error e => .error e
 
 end Darsia.Kern
+
+namespace Darsia.Kern
+
+/-! ### `linear_combination` (the numba-accelerated kernels and `BaseKernel.linear_combination` share this loop) -/
+
+/-- one pixel: `output = w[0]·k(x, s[0]); for n in 1..len(supports): output += w[n]·k(x, s[n])`; no supports → 0 -/
+def kernelLoop {F : Type} [Add F] [Mul F] [OfNat F 0] (k : Pt → Pt → F) : List F → List Pt → Pt → F
+  | w0 :: ws, s0 :: ss, x => (List.zip ws ss).foldl (fun acc p => acc + p.1 * k x p.2) (w0 * k x s0)
+  | _, _, _ => 0
+
+/-- the plain kernel sum `Σ_n w_n k(x, s_n)` -/
+def plainSum {F : Type} [Add F] [Mul F] [OfNat F 0] (k : Pt → Pt → F) (ws : List F) (ss : List Pt) (x : Pt) : F :=
+  ((List.zip ws ss).map fun p => p.1 * k x p.2).foldr (· + ·) 0
+
+/-- `LinearKernel(a).__call__`: `Σ_c x_c y_c + a` -/
+def linK (a : Rat) (x y : Pt) : Rat := (List.zipWith (· * ·) x y).foldr (· + ·) 0 + a
+
+/-- the three signal shapes the accelerated kernels are compiled for -/
+inductive Signal
+  | pixel (x : Pt)                 -- (3,)
+  | list (xs : List Pt)            -- (N, 3)
+  | grid (rows : List (List Pt))   -- (H, W, 3)
+  deriving Repr
+
+/-- result of `linear_combination` on a signal, flattened row-major -/
+def Signal.combine {F : Type} [Add F] [Mul F] [OfNat F 0] (k : Pt → Pt → F) (ws : List F) (ss : List Pt) : Signal → List F
+  | .pixel x => [kernelLoop k ws ss x]
+  | .list xs => xs.map (kernelLoop k ws ss)
+  | .grid rows => (rows.map fun r => r.map (kernelLoop k ws ss)).flatten
+
+def Signal.pixels : Signal → List Pt
+  | .pixel x => [x]
+  | .list xs => xs
+  | .grid rows => rows.flatten
+
+end Darsia.Kern
